@@ -15,13 +15,14 @@ inductive Act
   | stopProgress | stopPushTicker | getTotals
   | teardown              -- `teardownActiveScenario`: the setup handle's cleanups, LIFO; fails the run if one fails
   | printSummary | closeLog
+  | other                 -- a statement the translator has no name for
   deriving Repr, DecidableEq
 
 inductive Stmt
   | act (a : Act)
   | defer (a : Act)
   | retIf (setupFailedBranch : List Act)      -- `if r.activeScenario.Failed() { …; return }` (the branch only acts)
-  deriving Repr
+  deriving Repr, DecidableEq
 
 /-- the body of `Run.Do`, statement by statement -/
 def doBody : List Stmt :=
@@ -46,5 +47,19 @@ def count (a : Act) (l : List Act) : Nat := (l.filter (· == a)).length
 
 /-- position of the first occurrence -/
 def pos (a : Act) (l : List Act) : Option Nat := l.findIdx? (· == a)
+
+/-- index of the first occurrence (the length when absent) -/
+def idx (a : Act) (l : List Act) : Nat := l.findIdx (· == a)
+
+/-- the lifecycle clauses of C06 on one execution trace, as a checker: setup, teardown and summary exactly once and in
+that order; a failed setup means no `run` at all; otherwise `run` lies after setup, the progress reporter is stopped
+after it, then the totals are taken, and only then teardown runs -/
+def lifecycleOk (setupFailed : Bool) (l : List Act) : Bool :=
+  count .setup l == 1 && count .teardown l == 1 && count .printSummary l == 1 &&
+  count .runAndWait l == (if setupFailed then 0 else 1) &&
+  decide (idx .setup l < idx .teardown l) && decide (idx .teardown l < idx .printSummary l) &&
+  (setupFailed ||
+    (decide (idx .setup l < idx .runAndWait l) && decide (idx .runAndWait l < idx .stopProgress l) &&
+     decide (idx .stopProgress l < idx .getTotals l) && decide (idx .getTotals l < idx .teardown l)))
 
 end F1.Lifecycle
